@@ -404,6 +404,11 @@ func (fr *frame) codecMethod(st *PState, m string, args []Val, sig *types.Signat
 		}
 		val := ex.Unm(et, bz)
 		st.FlushSide()
+		// the decoded message obeys its Go type (integer ranges; its slices and pointers are its own memory, none of
+		// the allocations this function makes)
+		if vt, ok := Val(val).(T); ok {
+			st.TypeFacts(vt, et, 0)
+		}
 		// The generated (gogoproto) Unmarshal does not reset its target: fields absent from the bytes (zero values are
 		// not encoded) keep what the target held. Only a target that holds the zero value is known to end up as the
 		// decoded message; any other target ends up as an unknown merge of the two.
